@@ -283,9 +283,10 @@ fn c16_uri_abs_path() {
             let j: usize = kani::any();
             kani::assume(j < res.len());
             assert!(res.as_bytes()[j] == b[off + j], "[C16] abs_path is not the expected suffix of the URI (bytes)");
-            kani::cover!(PM != 1 || PN <= 9 || off > 7, "path after a non-empty authority");
+
         }
     }
+    kani::cover!(PM != 1 || PN <= 9 || matches!(want_off, Some(o) if o > 7), "path after a non-empty authority");
     kani::cover!(want_off.is_none(), "empty path");
     std::mem::forget(uri);
 }
@@ -387,7 +388,7 @@ fn c14_oneshot_framing() {
                     let j: usize = kani::any();
                     kani::assume(j < e - s);
                     assert!(body.raw()[j] == b[s + j], "[C14] one-shot body bytes");
-                    kani::cover!(true, "accepted with body");
+
                 }
                 _ => panic!("[C14] one-shot body presence differs from the reference"),
             }
@@ -405,7 +406,7 @@ fn c14_oneshot_framing() {
                 }
             } else {
                 assert!(unsafe { LOG_N } == 1);
-                kani::cover!(true, "accepted without headers");
+
             }
         }
         Err(RequestError::InvalidRequest) => assert!(class == 1, "[C14] one-shot parser rejected a slice the reference framing accepts (or with another error)"),
@@ -413,6 +414,8 @@ fn c14_oneshot_framing() {
         Err(RequestError::HeaderError(_)) => assert!(class == 3, "[C14] header-parser error expected"),
         Err(_) => panic!("[C14] unexpected error kind"),
     }
+    kani::cover!(PN < 22 || (r.is_ok() && want_body.is_some()), "accepted with body");
+    kani::cover!(r.is_ok() && hb.is_none(), "accepted without headers");
     kani::cover!(class == 1 && !too_long && e1 >= 14, "rejected by framing after the request line");
     std::mem::forget(r);
 }
